@@ -1063,6 +1063,9 @@ enum Op {
     UpErr,
     /// all records removed
     Empty,
+    /// the whole response (rcode and all sections, not the question) replaced by the authentic,
+    /// validly signed response to another question
+    ReplaceBy { qname: String, qtype: u16 },
     /// an unsigned RRset owned below the insecure delegation is added to section s
     InjectInsecure { s: u8 },
     /// answer RRset forged and signed with the attacker's tag-colliding key (main) /
@@ -1099,6 +1102,7 @@ impl Op {
             Op::Cut { .. } => "truncate".into(),
             Op::UpErr => "upstream-error".into(),
             Op::Empty => "empty-response".into(),
+            Op::ReplaceBy { .. } => "replace-by-authentic-response-to-other-question".into(),
             Op::InjectInsecure { .. } => "inject-insecure-rrset".into(),
             Op::Forge => "forged-key-same-tag".into(),
             Op::OutOfBailiwick => "signer-not-ancestor".into(),
@@ -2162,6 +2166,12 @@ fn apply_op(h: &Hier, op: &Op, r: &mut Resp, main: bool) {
                 r.sec[s].clear();
             }
         }
+        Op::ReplaceBy { qname, qtype } => {
+            let d = h.answer(&unshow(qname), *qtype);
+            r.rcode = d.rcode;
+            r.sec = d.sec;
+            r.next_id = d.next_id;
+        }
         Op::InjectInsecure { s } => {
             let owner = nm("inj.zone.tld.");
             r.push(*s as usize, Rr { owner: owner.clone(), rtype: T_A, class: 1, ttl: 3600, rdata: vec![192, 0, 2, 66] }, (2, key(&owner), T_A));
@@ -2274,6 +2284,32 @@ fn enumerate_ops(h: &Hier, r: &Resp, main: bool, swap_only: bool) -> Vec<(Op, bo
         if !main {
             v.push((Op::UpErr, true));
         }
+        // authentic responses to other questions
+        let mut donors: Vec<(Labels, u16)> = vec![];
+        for t in [T_A, T_TXT, T_MX, T_DS, T_DNSKEY, T_SOA, T_NS, T_CNAME] {
+            donors.push((r.qname.clone(), t));
+        }
+        for n in [".", "tld.", "zone.tld.", "www.zone.tld.", "x.w.zone.tld.", "nx.zone.tld.", "b.zone.tld.", "cn.zone.tld.", "www.tld.", "nx.tld.", "mail.zone.tld.", "a.b.zone.tld."] {
+            for t in [T_A, T_DS, T_DNSKEY, T_TXT] {
+                donors.push((nm(n), t));
+            }
+        }
+        if !r.qname.is_empty() {
+            donors.push((parent(&r.qname), r.qtype));
+            let mut c = vec![b"sub".to_vec()];
+            c.extend(r.qname.iter().cloned());
+            donors.push((c, r.qtype));
+        }
+        donors.sort();
+        donors.dedup();
+        let mut first = true;
+        for (n, t) in donors {
+            if n == r.qname && t == r.qtype {
+                continue;
+            }
+            v.push((Op::ReplaceBy { qname: show(&n), qtype: t }, first));
+            first = false;
+        }
     }
     for p in &sets {
         let z = &h.zones[p.zi];
@@ -2290,9 +2326,7 @@ fn enumerate_ops(h: &Hier, r: &Resp, main: bool, swap_only: bool) -> Vec<(Op, bo
                     if zi2 == p.zi && *d == p.srck {
                         continue;
                     }
-                    if zi2 != p.zi && n > 0 {
-                        break; // one foreign-zone donor per zone
-                    }
+                    let _ = n;
                     v.push((Op::SwapDenial { ids: all.clone(), zone: zi2, owner: show(&unkey(d)) }, first));
                     first = false;
                 }
